@@ -233,6 +233,21 @@ func modeAlphabet(full bool) []modeCall {
 				return t
 			}, func(s Format) Format { return s }),
 			with("WithJSONMode(true,false)", func(t *slog.Entry) *slog.Entry { return t.WithJSONMode(true, false) }, jsonNext(false)),
+			// children made by the attribute constructors got no mode call: they start in their parent's format
+			with("With(k,v)", func(t *slog.Entry) *slog.Entry { return t.With("req", 7) }, func(s Format) Format { return s }),
+			with("WithAttrs(attr)", func(t *slog.Entry) *slog.Entry { return t.WithAttrs(slog.String("peer", "10.0.0.1")) }, func(s Format) Format { return s }),
+			with("WithAttrs1(attrs)", func(t *slog.Entry) *slog.Entry { return t.WithAttrs1(slog.NewAttrs("a1", 1, "a2", 2.5)) }, func(s Format) Format { return s }),
+			// the package-level Reset() ("clear user settings": flags and the default level) while THIS logger is the
+			// process's default logger: no mode call, on nobody
+			set("slog.Reset() while the logger is the default logger", func(t *slog.Entry) *slog.Entry {
+				saved, fl, lv := slog.Default(), slog.GetFlags(), t.Level()
+				slog.SetDefault(t)
+				slog.Reset()
+				slog.SetDefault(saved)
+				slog.SetFlags(fl)
+				t.SetLevel(lv)
+				return t
+			}, func(s Format) Format { return s }),
 		)
 	}
 	return a
@@ -374,6 +389,13 @@ func c11run(c *Ctx, idx int, log *mon.Log, w mon.W, alpha []modeCall, steps []c1
 				c.R.Add("probes_with_a_message_of_several_lines", 1)
 			}
 			withErr := (si+i)%2 != 0
+			// ... and now and then the message is empty or blank, on a call without arguments: a record like any other (only
+			// Print / Println make a blank line of it)
+			blank := (si+5*i)%6 == 2 && !withErr
+			if blank {
+				msg = []string{"", " ", "\t "}[(si+i)%3]
+				c.R.Add("probes_with_a_blank_message_and_no_arguments", 1)
+			}
 			// ... and some carry a group of attributes in the middle of their arguments
 			args := []any{"k", 1}
 			if (si+3*i)%4 == 1 {
@@ -381,7 +403,13 @@ func c11run(c *Ctx, idx int, log *mon.Log, w mon.W, alpha []modeCall, steps []c1
 				c.R.Add("probes_with_a_group_attribute", 1)
 			}
 			evs := capture(log, func() {
-				if !withErr {
+				if blank {
+					if si%2 == 0 {
+						l.Info(msg)
+					} else {
+						l.Warn(msg)
+					}
+				} else if !withErr {
 					l.Info(msg, args...)
 				} else {
 					l.Warn(msg, append(args, "err", errProbe)...)
